@@ -563,3 +563,12 @@ Definition call_addrs (c : call) : list addr :=
 (* the state after a sequence of (authorisation set, call) pairs *)
 Definition run (h : header) (s : state) (cs : list (list addr * call)) : state :=
   fold_left (fun s ac => fst (step h s (fst ac) (snd ac))) cs s.
+
+(* ------------------------------------------------------------------ *)
+(* sibling entry path: a MUXED destination                              *)
+(* ------------------------------------------------------------------ *)
+(* FungibleToken::transfer takes `to : MuxedAddress` (an account address plus a 64-bit id that only travels in the
+   event).  Balances, voting units and delegation are keyed by `to.address()`: the model of a transfer to the muxed
+   address (to, mux_id) IS the transfer to `to` - the id is erased.  The harness prints such calls with this constructor,
+   so the trace shows the id that was used and the checker replays the call as a plain [Transfer]. *)
+Definition TransferMuxed (from to : addr) (mux_id : Z) (x : Z) : call := Transfer from to x.
